@@ -113,7 +113,7 @@ def work(k, queue, results, lock):
             if fn.endswith(".py"):
                 rc, out = sh(os.path.expanduser("~/.pyenv/versions/3.12.1/bin/python3") + " -m unittest test.test_num test.test_tape test.test_rules test.test_program 2>&1 | tail -4",
                              cwd=repo, timeout=3000)
-                out = out.replace("OK", "test result: ok").replace("FAILED (", "FAILED; failed; (")
+                out = ("test result: ok" if "\nOK" in "\n" + out else "test result: FAILED; 1 failed;") + " " + out.replace("error", "err").replace("FAILED", "failed")[-200:]
             else:
                 rc, out = sh("cargo test --offline --no-fail-fast 2>&1 | grep -E 'test result|FAILED|error' | head -20", cwd=repo,
                              env={"CARGO_TARGET_DIR": os.path.join(base, "target"), "CARGO_NET_OFFLINE": "true"}, timeout=3000)
